@@ -187,6 +187,7 @@ def analyse_pair(task: Tuple[str, str, bool, str, int, List[str]]) -> Dict[str, 
                 raise pairvc.RuleOutside(f"load program of form {k} could not be extracted: {progs[k].error!r}")
         eng = pairvc.make(pairvc.TextEngine)
         eng.max_paths = 40000
+        eng.cpu_budget = 120.0          # the whole P tier needs ~150 CPU s on the unchanged tree; beyond this: undecided
         chars = [eng.decls.const(f"c{i}", INT) for i in range(n)]
         pre = domain(tname, chars)
         row = {"Id_1": SV("str", CStr.lit("k"), False), X: SV("str", CStr(chars), False)}
